@@ -502,6 +502,14 @@ func liveStackMakers() []recvMaker {
 			s.SetValidityPolicy(func(...any) error { return nil })
 			return s.Push("m", "n")
 		}},
+		recvMaker{"AND-stored-err", "Stack", func() any { // an error recorded earlier: looking at it (Err) is a query like any other
+			s := stackage.And().Push("a", stackage.Cond("k", stackage.Eq, "v"))
+			s.SetErr(sentinelErr)
+			return s
+		}},
+		recvMaker{"OR-holding-ro-stack", "Stack", func() any {
+			return stackage.Or().Push("x", stackage.And().Push("a").SetReadOnly(true))
+		}},
 		recvMaker{"AND-awkward-leaves", "Stack", func() any { return awkwardLeafStack(false) }},
 		recvMaker{"AND-awkward-maps", "Stack", func() any { return awkwardMapStack(false) }},
 		recvMaker{"AND-awkward-nils", "Stack", func() any { return awkwardNilStack(false) }},
@@ -539,6 +547,18 @@ func liveCondMakers() []recvMaker {
 			return stackage.Cond("k", userOp("~="), 5).SetEncap(`"`).SetParen(true).SetID("cid").SetCategory("cc").SetAuxiliary(stackage.Auxiliary{"z": 2})
 		}},
 		{"cond-initonly", "Condition", func() any { var c stackage.Condition; c.Init(); return c }},
+		// writable itself, but HOLDING a read-only Stack (native / alias): the Condition's own flag decides what may be done to it
+		{"cond-holding-ro-stack", "Condition", func() any {
+			return stackage.Cond("k", stackage.Eq, stackage.And().Push("a", "b").SetReadOnly(true))
+		}},
+		{"cond-holding-ro-alias", "Condition", func() any {
+			return stackage.Cond("k", stackage.Ge, AStack(stackage.Or().Push("a").SetReadOnly(true)))
+		}},
+		{"cond-stored-err", "Condition", func() any {
+			c := stackage.Cond("k", stackage.Eq, "v")
+			c.SetErr(sentinelErr)
+			return c
+		}},
 		{"cond-awkward-leaf", "Condition", func() any { return stackage.Cond("k", stackage.Eq, eqStructP{A: 1, C: "c"}) }},
 		{"cond-failing-validity", "Condition", func() any {
 			c := stackage.Cond("k", stackage.Eq, "v")
